@@ -772,7 +772,7 @@ def compare(impl, model):
     diffs = []
     for k in sorted(set(impl) | set(model)):
         if impl.get(k) != model.get(k):
-            if k == "env":
+            if k == "env" and k in impl and k in model:
                 diffs += ["env." + f for f in ("recs", "dirs", "paths", "vars") if impl[k].get(f) != model[k].get(f)]
             else:
                 diffs.append(k)
@@ -911,6 +911,26 @@ def closure(G_, name, ver, exact, path=(0,), asked=None):
     return (acc if ok else None), not conflict[0]
 
 
+def asked_versions(G_, name, ver, exact, path=(0,)):
+    """name -> set of versions some line designates for it, over everything reachable from the request through the
+    designated versions — without stopping at lines that cannot be resolved (the real traversal may skip a subtree that
+    is already set up, so a failure found statically does not end it)."""
+    asked, seen = {}, set()
+    todo = [(name, ver, None, ())]
+    while todo:
+        n, vr, vx, lt = todo.pop()
+        v = designated(G_, n, vr, vx, line_tags=lt, path=path)
+        asked.setdefault(n, set()).add(v)
+        if v is None or (n, v, lt) in seen:
+            continue
+        seen.add((n, v, lt))
+        for a in G_.acts(n, v, exact):
+            if a["a"] == "dep":
+                vr2, vx2 = spec_model(a["spec"])
+                todo.append((a["name"], vr2, vx2, tuple(a.get("tags", [])) + tuple(lt)))
+    return asked
+
+
 # ---- per-request clause evaluation ------------------------------------------------------------
 
 def changed_for(G_, m, e0, e1):
@@ -1001,10 +1021,45 @@ def check_request(G_, req, r, stats=None, mixed=False):
                 got = set(e1["recs"].items())
                 if got != cl:
                     yield ("C01", "closure", None, "set up %r, closure %r" % (sorted(got), sorted(cl)))
-            elif cl is None:
+            elif cl is None and conflict_free:
                 yield ("C01", "closure", None, "request succeeded although its required closure cannot be resolved")
             else:
                 cnt("c01_closure_conflict")
+        # --- C01 clause 5 on populated environments: the required lines of the requested product's own table ------
+        top_v = e1["recs"].get(name)
+        if not req["keep"] and not req["tags"] and req["max_depth"] != 0 and not cyc and (name, top_v) in G_.decl:
+            path = tuple(req_path(req))
+            asked = asked_versions(G_, name, req["ver"], exact, path=path)
+            keep_named = {}                  # name -> kinds of lines naming it in the reachable tables (with / without -k)
+            for n2 in G_.reach([name]):
+                for v2 in G_.versions(n2):
+                    for a2 in G_.acts(n2, v2, exact):
+                        if a2["a"] == "dep":
+                            keep_named.setdefault(a2["name"], set()).add(bool(a2.get("keep")))
+            for a2 in G_.acts(name, top_v, exact):
+                if a2["a"] != "dep" or a2["opt"]:
+                    continue
+                m = a2["name"]
+                if m == name or len(asked.get(m, ())) > 1 or len(keep_named.get(m, ())) > 1:
+                    continue                 # requested in two versions (or both with and without -k) along the traversal
+                vr2, vx2 = spec_model(a2["spec"])
+                if a2.get("keep") and (m, e0["recs"].get(m)) in G_.decl:
+                    w = e0["recs"][m]        # the line says -k: the version set up beforehand stays
+                else:
+                    w = designated(G_, m, vr2, vx2, line_tags=tuple(a2.get("tags", [])), path=path)
+                if w is None:
+                    continue
+                cnt("c01_line_designated")
+                got = e1["recs"].get(m)
+                if got is None or unvk(got)[0] != unvk(w)[0]:
+                    cls = None
+                    if got is None:
+                        for p2, ov in e0["recs"].items():
+                            if p2 != m and (p2, ov) in G_.decl and p2 in G_.reach([name]) and e1["recs"].get(p2) != ov \
+                                    and m in G_.reach_from(p2, ov):
+                                cls = "D35"
+                    yield ("C01", "line_designated_version", cls,
+                           "%s's table asks for %s -> %s, record %r (before: %r)" % (name, m, w, got, e0["recs"].get(m)))
         # --- C04 (i) keep --------------------------------------------------------------------------
         if req["keep"]:
             cnt("c04_keep")
